@@ -44,94 +44,12 @@ func checkC14(c *Ctx) {
 	roots := serverRoots(p)
 	la := newLockAnalysis(p, roots, cut)
 
-	// ---- (a) lock order ----------------------------------------------------
-	type edgeKey struct{ from, to string }
-	byPair := map[edgeKey][]orderEdge{}
-	for _, e := range la.edges {
-		if !strings.HasPrefix(e.from, "imapserver.") && !strings.HasPrefix(e.from, "imapmemserver.") {
-			continue
-		}
-		if !strings.HasPrefix(e.to, "imapserver.") && !strings.HasPrefix(e.to, "imapmemserver.") {
-			continue
-		}
-		byPair[edgeKey{e.from, e.to}] = append(byPair[edgeKey{e.from, e.to}], e)
-	}
-	adj := map[string][]string{}
-	var pairs []edgeKey
-	for k := range byPair {
-		pairs = append(pairs, k)
-		adj[k.from] = append(adj[k.from], k.to)
-	}
-	sort.Slice(pairs, func(i, j int) bool {
-		if pairs[i].from != pairs[j].from {
-			return pairs[i].from < pairs[j].from
-		}
-		return pairs[i].to < pairs[j].to
-	})
-	// classes on a cycle
-	onCycle := func(a, b string) bool { // is there a path b →* a ?
-		seen := map[string]bool{}
-		var walk func(x string) bool
-		walk = func(x string) bool {
-			if x == a {
-				return true
-			}
-			if seen[x] {
-				return false
-			}
-			seen[x] = true
-			for _, y := range adj[x] {
-				if walk(y) {
-					return true
-				}
-			}
-			return false
-		}
-		return walk(b)
-	}
-	for _, k := range pairs {
-		es := byPair[k]
-		sort.Slice(es, func(i, j int) bool { return p.pos(es[i].site.Pos()) < p.pos(es[j].site.Pos()) })
-		if k.from == k.to {
-			// same-class nesting: one obligation per function where it happens
-			byFn := map[string]orderEdge{}
-			for _, e := range es {
-				root := e.fn
-				for root.Parent() != nil {
-					root = root.Parent()
-				}
-				if _, ok := byFn[fnKey(root)]; !ok {
-					byFn[fnKey(root)] = e
-				}
-			}
-			var fns []string
-			for f := range byFn {
-				fns = append(fns, f)
-			}
-			sort.Strings(fns)
-			for _, f := range fns {
-				e := byFn[f]
-				via := ""
-				if e.via != "" {
-					via = " (acquired inside " + e.via + ")"
-				}
-				c.fail("C14.a", fmt.Sprintf("lockorder|%s→%s|%s", short(k.from), short(k.to), f), e.site.Pos(),
-					fmt.Sprintf("%s is acquired%s while another %s (%s) is held: sync.Mutex is not reentrant (self-deadlock if it is the same object) and two sessions nesting the two objects in opposite orders deadlock", short(k.to), via, short(k.from), e.fromPath))
-			}
-			continue
-		}
-		if onCycle(k.from, k.to) {
-			e := es[0]
-			c.fail("C14.a", fmt.Sprintf("lockorder|%s→%s", short(k.from), short(k.to)), e.site.Pos(),
-				fmt.Sprintf("%s is acquired while %s is held (in %s) and the reverse order also exists: lock-order cycle", short(k.to), short(k.from), fnKey(e.fn)))
-			continue
-		}
-		e := es[0]
-		c.ok("C14.a", fmt.Sprintf("lockorder|%s→%s", short(k.from), short(k.to)), e.site.Pos(), fmt.Sprintf("%d nesting sites, e.g. in %s; not on a cycle", len(es), fnKey(e.fn)))
-	}
+	ruleLockOrder(c, "C14.a", la)
 
 	// ---- (b) lockset -------------------------------------------------------
 	guards := guardedFields(p, "imapserver", "imapserver/imapmemserver")
+	c.rule("C14.e", "a reference loaded from a guarded map/slice field is used only while the lock is held", 10)
+	ruleGuardedRefEscapes(c, "C14.e", la, guards, "imapserver", "imapserver/imapmemserver")
 	var glist []string
 	seenG := map[string]bool{}
 	for v, g := range guards {
@@ -351,4 +269,97 @@ func ownerName(f *types.Var, guards map[*types.Var]*guardInfo) string {
 		}
 	}
 	return "?"
+}
+
+// ruleLockOrder: the lock-order graph over the server's mutex classes is
+// acyclic, same-class nesting included (also run under C06: a connection
+// goroutine that deadlocks on itself never ends and never closes its session).
+func ruleLockOrder(c *Ctx, rule string, la *lockAnalysis) {
+	p := c.P
+	// ---- (a) lock order ----------------------------------------------------
+	type edgeKey struct{ from, to string }
+	byPair := map[edgeKey][]orderEdge{}
+	for _, e := range la.edges {
+		if !strings.HasPrefix(e.from, "imapserver.") && !strings.HasPrefix(e.from, "imapmemserver.") {
+			continue
+		}
+		if !strings.HasPrefix(e.to, "imapserver.") && !strings.HasPrefix(e.to, "imapmemserver.") {
+			continue
+		}
+		byPair[edgeKey{e.from, e.to}] = append(byPair[edgeKey{e.from, e.to}], e)
+	}
+	adj := map[string][]string{}
+	var pairs []edgeKey
+	for k := range byPair {
+		pairs = append(pairs, k)
+		adj[k.from] = append(adj[k.from], k.to)
+	}
+	sort.Slice(pairs, func(i, j int) bool {
+		if pairs[i].from != pairs[j].from {
+			return pairs[i].from < pairs[j].from
+		}
+		return pairs[i].to < pairs[j].to
+	})
+	// classes on a cycle
+	onCycle := func(a, b string) bool { // is there a path b →* a ?
+		seen := map[string]bool{}
+		var walk func(x string) bool
+		walk = func(x string) bool {
+			if x == a {
+				return true
+			}
+			if seen[x] {
+				return false
+			}
+			seen[x] = true
+			for _, y := range adj[x] {
+				if walk(y) {
+					return true
+				}
+			}
+			return false
+		}
+		return walk(b)
+	}
+	for _, k := range pairs {
+		es := byPair[k]
+		sort.Slice(es, func(i, j int) bool { return p.pos(es[i].site.Pos()) < p.pos(es[j].site.Pos()) })
+		if k.from == k.to {
+			// same-class nesting: one obligation per function where it happens
+			byFn := map[string]orderEdge{}
+			for _, e := range es {
+				root := e.fn
+				for root.Parent() != nil {
+					root = root.Parent()
+				}
+				if _, ok := byFn[fnKey(root)]; !ok {
+					byFn[fnKey(root)] = e
+				}
+			}
+			var fns []string
+			for f := range byFn {
+				fns = append(fns, f)
+			}
+			sort.Strings(fns)
+			for _, f := range fns {
+				e := byFn[f]
+				via := ""
+				if e.via != "" {
+					via = " (acquired inside " + e.via + ")"
+				}
+				c.fail(rule, fmt.Sprintf("lockorder|%s→%s|%s", short(k.from), short(k.to), f), e.site.Pos(),
+					fmt.Sprintf("%s is acquired%s while another %s (%s) is held: sync.Mutex is not reentrant (self-deadlock if it is the same object) and two sessions nesting the two objects in opposite orders deadlock", short(k.to), via, short(k.from), e.fromPath))
+			}
+			continue
+		}
+		if onCycle(k.from, k.to) {
+			e := es[0]
+			c.fail(rule, fmt.Sprintf("lockorder|%s→%s", short(k.from), short(k.to)), e.site.Pos(),
+				fmt.Sprintf("%s is acquired while %s is held (in %s) and the reverse order also exists: lock-order cycle", short(k.to), short(k.from), fnKey(e.fn)))
+			continue
+		}
+		e := es[0]
+		c.ok(rule, fmt.Sprintf("lockorder|%s→%s", short(k.from), short(k.to)), e.site.Pos(), fmt.Sprintf("%d nesting sites, e.g. in %s; not on a cycle", len(es), fnKey(e.fn)))
+	}
+
 }
